@@ -81,3 +81,14 @@ Example C16_nonvacuous :
   parse (B "[1] x") = None /\ valid_gen (B "[1] x") = false /\
   parse (B """\u12g4""") = None /\ valid_gen (B """\u12g4""") = false.
 Proof. vm_compute. repeat split; try reflexivity; discriminate. Qed.
+
+(* ---- Compact and Indent as re-translated from indent.go on every run are the model's compact_go / indent_go
+   (IndentTie.v), whose acceptance is that of Valid (above) ---- *)
+From JP Require IndentTie.
+From JP.gen Require IndentGen.
+Theorem C16_go_compact_is_model : forall esc bs, IndentGen.compact_gen esc bs = Scan.compact_go esc bs.
+Proof. exact IndentTie.compact_gen_is_model. Qed.
+Print Assumptions C16_go_compact_is_model.
+Theorem C16_go_indent_is_model : forall indent bs, IndentGen.indent_gen [] indent bs = Scan.indent_go indent bs.
+Proof. exact IndentTie.indent_gen_is_model. Qed.
+Print Assumptions C16_go_indent_is_model.
